@@ -20,7 +20,7 @@ Record oitem := mkOItem {
 Inductive ores := OROk (obj : Z) (v : N) (acc rej : N) | ORErr (kind tag : N).
 Inductive ev :=
 | EPoll | EStart (id seed v : N) | EReturned (seed : N) (o : rawout) | EItems (l : list oitem)
-| EPending | EReady (r : ores) | EHang | ETerminate | ECloseCmd | ECloseReports.
+| EPending | EReady (r : ores) | EHang | ETerminate | ECloseCmd | ECloseReports | EReplayMismatch.
 Record run_obs := mkRunObs {
   ro_idx : N; ro_nc : N; ro_budget : option N; ro_target : option Z; ro_ss : N; ro_init : N;
   ro_events : list ev }.
@@ -206,12 +206,13 @@ Section Replay.
         [mkAst (a_c a) (a_ret a) (a_pend a) (a_q a) (a_items a) true (a_rep_closed a) (a_fired a)]
     | ECloseReports =>
         [mkAst (a_c a) (a_ret a) (a_pend a) (a_q a) (a_items a) (a_cmd_closed a) true (a_fired a)]
+    | EReplayMismatch => [a]
     end.
 
   Definition ev_kind (e : ev) : N :=
     match e with
     | EPoll => 0 | EStart _ _ _ => 1 | EReturned _ _ => 2 | EItems _ => 3 | EPending => 4
-    | EReady _ => 5 | EHang => 6 | ETerminate => 7 | ECloseCmd => 8 | ECloseReports => 9
+    | EReady _ => 5 | EHang => 6 | ETerminate => 7 | ECloseCmd => 8 | ECloseReports => 9 | EReplayMismatch => 10
     end.
 
   (** NFA simulation; on rejection: index and kind of the event that emptied the state set *)
@@ -543,3 +544,60 @@ Definition judge_run (o : run_obs) : string :=
    " C14=" ++ b2s (mon_C14 o) ++ " C15=" ++ b2s (mon_C15 o) ++
    " starts=" ++ N2s (nstarts o) ++ " acc_n=" ++ N2s (nacc o) ++ " rej_n=" ++ N2s (nrej o) ++
    " hung=" ++ b2s (hung o) ++ " END")%string.
+
+(** ** twins (C09): the same actions again must give the same observable run; the same completion
+    order with a different spacing must give the same evaluations, report items and result *)
+Definition raw_eqb (a b : rawout) : bool :=
+  match a, b with
+  | RVal x, RVal y => Z.eqb x y
+  | RNone, RNone => true
+  | RErrTag x, RErrTag y => N.eqb x y
+  | _, _ => false
+  end.
+Definition oz_eqb (a b : option Z) : bool :=
+  match a, b with Some x, Some y => Z.eqb x y | None, None => true | _, _ => false end.
+Definition meta_eqb (a b : option (N * Z * Z * Z * Z)) : bool :=
+  match a, b with
+  | Some (s, c, p, m, k), Some (s', c', p', m', k') => N.eqb s s' && Z.eqb c c' && Z.eqb p p' && Z.eqb m m' && Z.eqb k k'
+  | None, None => true
+  | _, _ => false
+  end.
+Definition oitem_eqb (a b : oitem) : bool :=
+  N.eqb (oi_id a) (oi_id b) && N.eqb (oi_seed a) (oi_seed b) && N.eqb (oi_val a) (oi_val b) &&
+  oz_eqb (oi_res a) (oi_res b) && meta_eqb (oi_meta a) (oi_meta b).
+Definition ores_eqb (a b : option ores) : bool :=
+  match a, b with
+  | Some (OROk x v a1 r1), Some (OROk y w a2 r2) => Z.eqb x y && N.eqb v w && N.eqb a1 a2 && N.eqb r1 r2
+  | Some (ORErr k t), Some (ORErr k' t') => N.eqb k k' && N.eqb t t'
+  | None, None => true
+  | _, _ => false
+  end.
+Fixpoint list_eqb {A} (f : A -> A -> bool) (a b : list A) : bool :=
+  match a, b with [], [] => true | x :: r, y :: s => f x y && list_eqb f r s | _, _ => false end.
+
+Fixpoint list_prefix {A} (f : A -> A -> bool) (a b : list A) : bool :=
+  match a, b with [], _ => true | x :: r, y :: s => f x y && list_prefix f r s | _ :: _, [] => false end.
+
+(** an evaluation created in the very poll in which the run returns may never be polled, hence
+    never seen by the objective function: when both runs have returned, one start log may be a
+    prefix of the other *)
+Definition same_run (a b : run_obs) : bool :=
+  let st_eq := fun x y : N * N * N => match x, y with (i, s, v), (i', s', v') => N.eqb i i' && N.eqb s s' && N.eqb v v' end in
+  (list_eqb st_eq (starts a) (starts b) ||
+   (match final a, final b with Some _, Some _ => true | _, _ => false end &&
+    (list_prefix st_eq (starts a) (starts b) || list_prefix st_eq (starts b) (starts a)))) &&
+  list_eqb (fun x y => N.eqb (fst x) (fst y) && raw_eqb (snd x) (snd y)) (returns a) (returns b) &&
+  list_eqb oitem_eqb (items a) (items b) &&
+  ores_eqb (final a) (final b).
+Definition same_shape (a b : run_obs) : bool :=
+  list_eqb N.eqb (map ev_kind (ro_events a)) (map ev_kind (ro_events b)).
+Definition no_mismatch (a : run_obs) : bool :=
+  negb (existsb (fun e => match e with EReplayMismatch => true | _ => false end) (ro_events a)).
+
+Definition judge_twin (a b c : run_obs) : string :=
+  let again := same_run a b && same_shape a b && no_mismatch b in
+  let respaced := same_run a c in
+  ("TWIN idx=" ++ N2s (ro_idx a) ++ " acc=ok C09=" ++ b2s (again && (respaced || negb (no_mismatch c))) ++
+   " again=" ++ b2s again ++ " respaced=" ++ b2s respaced ++ " replayable=" ++ b2s (no_mismatch c) ++
+   " starts=" ++ N2s (nstarts a) ++ " END")%string.
+
